@@ -5,7 +5,7 @@
 (* conditions from a four-letter alphabet whose truth for a request the spec defines:  *)
 (*   "T" always true (default_t()), "F" never true, "H" host is x.t, "P" path is /a.   *)
 EXTENDS LookupP, BasicM
-CONSTANT MaxAdv
+CONSTANTS MaxAdv, MaxLRules
 
 AdvL    == <<"ADVANCED_MODE">>     \* cfg: AdvMode <- AdvL
 NoRouteL == <<"ERR">>              \* cfg: NoRoute <- NoRouteL
@@ -16,7 +16,7 @@ LReqHosts == {<<Lx, Lt>>, <<Ly, Lt>>, <<Lt>>}
 LReqPaths == {Q(<<Ea>>), Q(<<Ea, Eb>>), Q(<<Eb>>)}
 LPairs    == LHostPats \X LPathPats
 BasicClusters == {<<"cb">>, AdvL}
-LTables   == UNION {[S -> BasicClusters] : S \in SubsetsUpTo(LPairs, 2)}
+LTables   == UNION {[S -> BasicClusters] : S \in SubsetsUpTo(LPairs, MaxLRules)}
 
 Conds == {"T", "F", "H", "P"}
 Truth(c, h, q) == CASE c = "T" -> TRUE [] c = "F" -> FALSE
